@@ -28,14 +28,20 @@ ASSUMPTIONS = ['ValLaws (equal_encoding is an equivalence, strict_equal implies 
                'the tie uses (EOps_laws; C01_undo_restores_encoded_values_partial), given tt_ok of the type table (defaults '
                'are fixed points of their column class), which the trace check evaluates on the table read from the running '
                'usertypes/column modules (laws monitor)',
-               'proved class (C01_undo_restores_docs_calcs_partial, hypothesis bundle_ok2, a computable check evaluated on '
-               'every recorded trace): doc actions first, then calc deltas, then the flush; start document well formed and '
-               'free of names with the reserved "-" prefix; doc actions lossless (no formula column with values removed, no '
-               'ReplaceTableData on a table with formula columns, no ModifyColumn changing the type); every calc delta names '
-               'existing rows and its first `before` equals the current cell up to encoding (SC2)',
-               'NOT proved: renames/removals between a calc delta and the flush (stage 3), per-column flushes of '
-               'doModifyColumn, lossy doc actions inside a bundle with their summary-side restores; these are covered by the '
-               'event-trace tie and the implementation oracles only. The full statement is false of the faithful model: '
+               'proved class (C01_undo_restores_stage3_partial, hypothesis bundle_ok3, a computable check evaluated on every '
+               'recorded trace; it contains the stage-2 class bundle_ok2 of C01_undo_restores_docs_calcs_partial = doc actions, '
+               'then calc deltas, then the flush): start document well formed and free of names with the reserved "-" prefix; '
+               'then, in any order and number: calc deltas that name existing rows and whose first `before` equals the current '
+               'cell up to encoding (SC2); RenameColumn/RenameTable whatever is pending; any lossless doc action (no formula '
+               'column with values removed, no ReplaceTableData on a table with formula columns, no ModifyColumn changing the '
+               'type) while no calc delta is pending; the doModifyColumn triple ModifyColumn / conversion delta / per-column '
+               'flush for a column without pending delta, type changes included, provided every converted row has its '
+               'pre-ModifyColumn value as `before` and every other row survives the type round trip (Column.set under the new '
+               'type keeps the encoding)',
+               'NOT proved: doc actions other than renames while calc deltas of OTHER columns are pending, removals of cells '
+               'that have a pending delta (front-inserted restores), data->formula ModifyColumn with a type change, lossy doc '
+               'actions inside a bundle with their summary-side restores; these are covered by the event-trace tie and the '
+               'implementation oracles only. The full statement is false of the faithful model: '
                'C01_refuted_to_formula_type_change, C01_refuted_front_restore_written_cell (each replayed on the engine: known '
                'findings); the former third witness (removed table with rows added in the bundle) was repaired in /repo '
                '(b239974), the model follows the repaired code and keeps it as C01_regression_removed_table_new_row']
@@ -43,16 +49,18 @@ TECHNIQUE = ('Coq proofs over a hand-written executable model of the action log 
              'exception sets carried through renames, ActionSummary invariants: created cells / presence maps / LabelRenames, '
              'flush analysis) + event-trace refinement against the running engine (vm_compute) + undo / whole-history undo '
              'oracles on the implementation')
-LEVEL_TEXT = ('Kernel-checked for all documents and all bundles of the shape "doc actions, then calc deltas, then flush" that '
-              'pass the computable side conditions (bundle_ok2): replaying the undo list in reverse restores tables, schema, '
+LEVEL_TEXT = ('Kernel-checked for all documents and all bundles that pass the computable side conditions bundle_ok3 (doc actions, '
+              'calc deltas, renames after calc deltas, the ModifyColumn / conversion delta / per-column flush triples of '
+              'doModifyColumn incl. type changes, any lossless doc action while nothing is pending): replaying the undo list in reverse restores tables, schema, '
               'row ids and every cell up to encoding; every doc action kind is inverted by its own undo (exact exception '
               'sets); undo of whole histories bundle by bundle; well-formedness preserved. The full statement over arbitrary '
               'interleavings is refuted by two kernel-checked witnesses, which are real engine defects (known findings). '
               'The model is compared with the running engine on recorded event traces of random histories on every run, and '
               'the share of real traces that satisfy the hypotheses of the proved theorem is reported.')
 LEVEL_NOTE = ('kernel strength: the theorems are about the action log (docactions/action_summary/action_obj), not about '
-              'useractions.py. Stage 3 (renames/removals between a calc delta and the flush, per-column flushes) is '
-              '_partial: validated by trace refinement and oracles only.')
+              'useractions.py. Stage 3 is proved for renames and for the per-column flushes of doModifyColumn; removals of cells '
+              'with a pending delta and doc actions while other columns are pending are _partial: validated by trace '
+              'refinement and oracles only.')
 PROOF_TIMEOUT = 900
 
 
@@ -97,6 +105,9 @@ def correspond(ctx):
       n_sc += 1
       ctx.bump('side-condition-violated:' + ('SC1' if code & K.B_SC1 else '') + ('SC2' if code & K.B_SC2 else ''))
     ctx.bump('theorem-hypotheses-hold' if not code & K.B_NOTHM else 'outside-proved-class')
+    if code & K.B_NOTHM and not code & K.B_NOTHM2:
+      ctx.broken('monitor: bundle_ok2 accepts a recorded trace that bundle_ok3 rejects (the stage-3 class must contain '
+                 'the stage-2 class)', json.dumps({'bundle': meta['bundle']}, default=repr)[:800])
     if not code & K.B_NOTHM and code & K.B_NOTHM2:
       ctx.bump('theorem-hypotheses-hold:stage3-only')
     if not code & K.B_NOTHM and code & K.B_MUNDO:
@@ -161,6 +172,11 @@ def search(ctx):
       if desc:
         ctx.violation(k['witness'].get('kind') or 'regression', 'regression of %s (%s): %s' % (k['id'], k.get('commit'), desc),
                       k['witness'])
+  # fixed templates, always run: value-dependent (counter) trigger formulas read by a formula column whose id sorts
+  # before / after them; edits and adds of the dependency, an explicit value for the trigger cell, a removed row
+  for kind, what, rep in K.counter_search(PROP, [], 4):
+    ctx.count(('template', kind), nontrivial=True, kind='template')
+    ctx.violation(kind, what, rep)
   res = getattr(ctx, '_k1', None) or K.traced_run(ctx, *sizes(ctx))
   seen = set()
   budget = 6
